@@ -13,6 +13,7 @@ import (
 	"os/exec"
 	"path/filepath"
 	"sort"
+	"strconv"
 	"strings"
 	"time"
 )
@@ -225,6 +226,7 @@ type Runner struct {
 	MaxViol       int
 	Shard, NShard int
 	RepeatFactor  int
+	dumped        int
 }
 
 func (r *Runner) modelOut(op *Op, m any) any {
@@ -248,6 +250,25 @@ func (r *Runner) RunCases(cases []Case) {
 	for i := range cases {
 		// the implementation side sees exactly what the model sees: plain JSON values
 		cases[i].Args = deepCopy(cases[i].Args).(map[string]any)
+	}
+	// VERIF_DUMP=<feature substring>:<file>:<count> appends matching generated cases to a corpus file
+	if spec := os.Getenv("VERIF_DUMP"); spec != "" {
+		parts := strings.SplitN(spec, ":", 3)
+		if len(parts) == 3 {
+			max, _ := strconv.Atoi(parts[2])
+			for _, c := range cases {
+				if strings.Contains(c.Feat, parts[0]) && r.dumped < max {
+					var cur []any
+					if b, err := os.ReadFile(parts[1]); err == nil {
+						json.Unmarshal(b, &cur)
+					}
+					cur = append(cur, map[string]any{"op": c.Op, "args": c.Args, "feat": c.Feat})
+					b, _ := json.Marshal(cur)
+					os.WriteFile(parts[1], b, 0o644)
+					r.dumped++
+				}
+			}
+		}
 	}
 	for i, c := range cases {
 		refreshNow(c.Args)
